@@ -36,7 +36,7 @@
 #endif
 
 #ifdef KV_CBMC
-/* realloc: new block, old block released.  Contents are carried over for small blocks (tables of pointers); for larger ones
+/* realloc: new block, old block released.  Contents are carried over for small blocks (tables of pointers, <= 128 bytes); for larger ones
    (line buffers) they are left unspecified -- an over-approximation: the writer prints the line again anyway. */
 void* realloc(void* p, size_t n)
 {
@@ -47,7 +47,10 @@ void* realloc(void* p, size_t n)
                 old = __CPROVER_OBJECT_SIZE(p);
                 __CPROVER_assert(__CPROVER_POINTER_OFFSET(p) == 0, "realloc stub: pointer is the start of an allocation");
                 k = old < n ? old : n;
-                if(old <= 48){
+                if(old % sizeof(void*) == 0 && old <= 128){
+                        /* word-wise, so that a table of pointers keeps its pointers (the line table of *_grow shapes) */
+                        for(i = 0; i < 16; i++){ if(i < k / sizeof(void*)){ ((void**)q)[i] = ((void**)p)[i]; } }
+                }else if(old <= 48){
                         for(i = 0; i < 48; i++){ if(i < k){ q[i] = ((char*)p)[i]; } }
                 }
                 free(p);
@@ -93,6 +96,7 @@ static int kv_fit_snprintf(char* str, size_t size, const char* fmt, ...)
                 size_t n = (size_t)need < size ? (size_t)need : size - 1;
                 size_t i;
                 for(i = 0; i < n && i < 400; i++){ str[i] = 'x'; }
+                if(n > 0){ str[0] = kv_streq(fmt, KV_FMT_MSF) ? 'D' : kv_streq(fmt, KV_FMT_NAME) ? 'N' : kv_streq(fmt, KV_FMT_SEP) ? '/' : '!'; }
                 str[n] = 0;
         }
         if((size_t)need < size){
@@ -102,8 +106,29 @@ static int kv_fit_snprintf(char* str, size_t size, const char* fmt, ...)
         }
         return need;
 }
-static int kv_fit_fprintf(FILE* f, const char* fmt, ...){ (void)f; (void)fmt; return 0; }
+/* the lines handed to fprintf("%s\n"), by their first character: header lines carry the tag the snprintf contract stub put
+   there, block lines start with the row name, empty lines and block separators are themselves */
+#define KV_MAXOUT 40
+static int kv_printed;
+static char kv_first[KV_MAXOUT];
+static int kv_fit_fprintf(FILE* f, const char* fmt, ...)
+{
+        va_list ap;
+        (void)f;
+        va_start(ap, fmt);
+        if(kv_streq(fmt, "%s\n")){
+                const char* l = va_arg(ap, const char*);
+                if(kv_printed < KV_MAXOUT){ kv_first[kv_printed] = l[0]; }
+                kv_printed++;
+        }
+        va_end(ap);
+        return 0;
+}
 
+#ifdef KV_LCAP_GROW
+#undef KV_LCAP
+#define KV_LCAP KV_LCAP_GROW   /* capacity (and growth step) of the table of output lines in the capacity-shrunk copy */
+#endif
 #include "tldevel.h"
 #define fprintf kv_fit_fprintf
 #define snprintf kv_fit_snprintf
@@ -161,7 +186,7 @@ void h_c15_msf_fit(void)
         m->alnlen = KV_W;
         m->biotype = KV_PROT ? ALN_BIOTYPE_PROTEIN : ALN_BIOTYPE_DNA;
         m->L = KV_PROT ? ALPHA_ambigiousPROTEIN : ALPHA_defDNA;
-        kv_pending = 0; kv_reprints = 0; kv_fit_calls = 0; kv_foreign_while_pending = 0; kv_fit_bad_format = 0;
+        kv_printed = 0; kv_pending = 0; kv_reprints = 0; kv_fit_calls = 0; kv_foreign_while_pending = 0; kv_fit_bad_format = 0;
 
         rc = write_msa_msf(m, NULL);
 
@@ -171,6 +196,16 @@ void h_c15_msf_fit(void)
         KV_CHECK(!kv_pending, "F3 no header line is left cut: the description line keeps MSF: / Type: / Check: / .., the Name: lines keep Len: / Check:");
         KV_CHECK(kv_reprints == ((KV_OVER_DESC) >= 0 ? 1 : 0) + ((KV_OVER_NAME) >= 0 ? KV_N : 0), "F4 a line is printed twice exactly when it does not fit");
         KV_CHECK(kv_fit_calls == 3 + KV_N + kv_reprints, "F4 one header line per format item: molecule line, description, one Name: per row, //");
+        /* F5: the file is the header (molecule line, empty, description, empty, one Name: line per row, empty, //, empty) and then,
+           per block of 60 columns, one line per row in order and a separator -- nothing lost or re-ordered, also when the table of
+           output lines had to grow on the way (*_grow shapes: table of KV_LCAP = 4 lines growing three times) */
+        {
+                static const char exp_first[] = { '!', 0, 'D', 0, 'N', 'N', 0, '/', 0, 's', 's', '\n' };
+                KV_CHECK(kv_printed == (int)sizeof(exp_first), "F5 exactly the prescribed number of lines is written");
+                for(i = 0; i < (int)sizeof(exp_first); i++){
+                        KV_CHECK(kv_first[i] == exp_first[i], "F5 lines come out in the prescribed order (header, then every row of the block, then the separator)");
+                }
+        }
         KV_REACH();
 }
 #ifdef KV_NATIVE
